@@ -62,6 +62,25 @@ def det_job(info, cn, nmax, only_scen=None):
                     bounded=('container sizes enumerated over %s; contents and scalars symbolic' % (svs,)) if vecs else None)
 
 
+def skipp_job(info):
+    src = bc.prelude(info, 'AbstractFile', 16)
+    src += '''static void scenario(int64_t n)
+{
+    uint8_t buf[40]; size_t j; struct AbstractFile f; f.buf = buf; f.cap = 40; f.g = 0; f.p = 3; f.fileSize = INT64_MAX; f.rdstate = 0; f.gcount = 0; f.hdr_end = -1; vb_exc = 0;
+    AbstractFile_skipp(&f, n);
+    __CPROVER_assert(vb_exc == 0 && f.p == 3 + n, "C14/AbstractFile/skipp/emits-exactly-n-bytes");
+    __CPROVER_assert(j < 3 || j >= (size_t)(3 + n) || buf[j] == 0, "C14/AbstractFile/skipp/the-bytes-are-zero");
+}
+void harness(void)
+{
+    scenario(0); scenario(1); scenario(2); scenario(3); scenario(15); scenario(16);
+    __CPROVER_assert(0, "canary");
+}
+'''
+    return core.Job('C14_AbstractFile_skipp', src, route='harness', unwind=60, functions=['AbstractFile::skipp'], canary_ids=['harness.assertion.1'],
+                    timeout=120, flags=bc.FLAGS + ['--max-field-sensitivity-array-size', '4096'], bounded='skip lengths 0,1,2,3,15,16 (all the library uses)')
+
+
 def main():
     meta = core.ensure_extracted()
     info = classinfo.Info(meta)
@@ -73,6 +92,7 @@ def main():
         scen = bc.optional(info).get(cn, {}).get('scenarios')
         if scen: jobs += [det_job(info, cn, nmax, i) for i in range(len(scen))]
         else: jobs.append(det_job(info, cn, nmax))
+    if not only: jobs.append(skipp_job(info))
     rep = core.Report('C14')
     rep.assumptions = ['zlib is deterministic (assumed contract); schedule independence is C07 (not applicable to this technique)',
                        'uninitialised storage is modelled as nondeterministic content, over-approximating every poison pattern',
